@@ -119,6 +119,17 @@ add("C09", "exploration",
     NODE_NOTE + " The history/live hand-over is schedule-owned only at batch boundaries (H3); the remaining interleavings (confirmation actor vs. subscription task) are sampled by the runtime, with schedule-independent oracles. 'Eventually delivered' is judged 3 s after the last operation (60 s after a burst).",
     "stateful property-based testing with hook-owned schedule points and order/gap/window/completeness invariants", "§4 C09")
 
+MULTI_TEXT = "A cluster of three real node processes on loopback (the server's start-up sequence, formed through hook H5) is driven over RESP by a tape-generated schedule of single/multi-event appends through chosen nodes (awaited or in flight), the same key written through all nodes at once, SIGSTOP pauses of 0.2-3 s (missed heartbeats, divergent membership views, late replies) and SIGKILL with restart on the same directory; afterwards all processes are killed and every node's directory is opened offline and dumped as (partition, sequence) -> (transaction, event id, confirmation count). "
+MULTI_NOTE = "Process-level faults only (no per-message drop/duplicate/reorder); SIGKILL keeps written data (disks survive, memory is lost). Timing is owned by the OS, so replays are best-effort; both oracles are invariants over the final disks and cannot be falsified by timing. Tens of cases per quick run, hundreds per thorough run."
+add("C10", "exploration",
+    MULTI_TEXT + "No (partition, sequence) may hold two different transactions that carry a confirmation count >= quorum on any nodes.",
+    MULTI_NOTE,
+    "property-based generation of fault/operation schedules against a real multi-process cluster with a disk-state invariant", "§4 C10/C11")
+add("C11", "exploration",
+    MULTI_TEXT + "Every append acknowledged OK to a client must be stored with its event ids at the reported sequences on at least quorum nodes, carry a count >= quorum on at least one node, and no node may hold a different quorum-confirmed transaction there.",
+    MULTI_NOTE + " The coordinator is not identifiable from the client side, so 'quorum count on the coordinator' is checked as 'on at least one node'.",
+    "property-based generation of fault/operation schedules against a real multi-process cluster with a disk-state invariant", "§4 C10/C11")
+
 NOT_BUILT = {}
 ALL = ["C%02d" % i for i in range(1, 27)]
 for i in ALL:
